@@ -203,7 +203,17 @@ func c15(r *rng, tier string, o *out) {
 	}
 	for c := 0; c < n; c++ {
 		ne := 2 + r.intn(12)
-		es, dl := genEntries(r, entOpts{n: ne, maxGapLog: 10, runs: true, shared: r.chance(50)})
+		eo := entOpts{n: ne, maxGapLog: 10, runs: true, shared: r.chance(50)}
+		if c%6 == 5 { // the smallest archives: one entry addressing one tile (every count is 1)
+			eo = entOpts{n: 1, maxGapLog: 10}
+		}
+		es, dl := genEntries(r, eo)
+		if c%6 == 4 { // fully deduplicated: every entry points at the first content
+			for i := range es {
+				es[i].Off, es[i].Len = es[0].Off, es[0].Len
+			}
+			dl = uint64(es[0].Len)
+		}
 		clustered := r.chance(60)
 		if !clustered && len(es) > 1 { // an unordered layout: swap the offsets of the first two distinct contents
 			for i := 1; i < len(es); i++ {
@@ -241,6 +251,9 @@ func c15(r *rng, tier string, o *out) {
 		bad("entries-1", func(h *Hdr) { h.Entries-- })
 		bad("contents+1", func(h *Hdr) { h.Contents++ })
 		bad("contents-1", func(h *Hdr) { h.Contents-- })
+		bad("addressed=0", func(h *Hdr) { h.Addressed = 0 })
+		bad("entries=0", func(h *Hdr) { h.Entries = 0 })
+		bad("contents=0", func(h *Hdr) { h.Contents = 0 })
 		bad("minzoom", func(h *Hdr) { h.MinZoom++; h.CenterZoom = h.MinZoom })
 		bad("maxzoom", func(h *Hdr) { h.MaxZoom++ })
 		bad("centerzoom", func(h *Hdr) { h.CenterZoom = h.MaxZoom + 1 })
